@@ -27,6 +27,9 @@ W[("C07", "subcommand_after_parent_flags")] = {"op": "parse", "in": {"tree": T1,
 W[("C01", "shorthand_series_after_dash")] = {"op": "parse", "in": {"tree": T2, "words": ["--", "-c"]}}
 T3 = {"cmds": [_cmd("root", -1, [dict(_flag("level", "e"), delim=":", nargs=0)])]}
 W[("C01", "posix_shorthand_custom_delimiter")] = {"op": "parse", "in": {"tree": T3, "words": ["-e:"]}}
+T4 = {"cmds": [dict(_cmd("root", -1, [_flag("name", "n")]), whitelist=True), dict(_cmd("sub", 0, []), whitelist=True)]}
+W[("C01", "unknown_flag_takes_next_word")] = {"op": "parse", "in": {"tree": T4, "words": ["-z", ""]}}
+W[("C07", "unknown_flag_takes_next_word")] = {"op": "parse", "in": {"tree": T4, "words": ["-z", ""]}}
 W[("C20", "complete_protocol_positional_from_dash_slot")] = {"op": "ccomplete", "in": {"tree": T2, "words": [""], "cobraSide": False}}
 _E = lambda shell, word, desc: {"op": "entry", "in": {"tree": T1, "variant": 6, "ancestor": "fish", "args": [shell, "root", word], "env": {}, "desc": desc}}
 W[("C18", "zsh_framing_control_chars")] = _E("zsh", "-\x01", "plain")
